@@ -1,21 +1,22 @@
 #!/bin/bash
 # Verify every sub-agent mutant in a fresh scratch worktree of /repo's HEAD:
-#  suite passes with the patch, demo fails with it, demo passes without it.  Writes /tmp/mut/verify.tsv
+#  suite passes with the patch, demo fails with it, demo passes without it.  Writes $MUT/verify.tsv
 set -u
+MUT=${MUT:-/tmp/mut}
 WT=/tmp/wt-verify
 cd /repo && git worktree remove --force $WT 2>/dev/null; git worktree add -q --detach $WT HEAD && cp /repo/Cargo.lock $WT/
-: > /tmp/mut/verify.tsv
+: > $MUT/verify.tsv
 for P in 01 02 03 04 05 06 07 08 09 10 11 12 13 14 15 16 17 18 19 20; do for m in m1 m2; do
-  M=/tmp/mut/C$P/$m
+  M=$MUT/C$P/$m
   cd $WT; git checkout -q -- . ; git clean -fdq tests gsd-parser/tests src gsd-parser/src 2>/dev/null
-  if ! git apply $M/patch.diff 2>/dev/null; then echo -e "C$P\t$m\tPATCH-DOES-NOT-APPLY" >> /tmp/mut/verify.tsv; continue; fi
+  if ! git apply $M/patch.diff 2>/dev/null; then echo -e "C$P\t$m\tPATCH-DOES-NOT-APPLY" >> $MUT/verify.tsv; continue; fi
   suite=$(cargo test --workspace --no-fail-fast --offline 2>&1 | grep -E "^test result" | awk '{p+=$4; f+=$6} END{print p"/"f}')
-  if ! git apply $M/demo.diff 2>/dev/null; then echo -e "C$P\t$m\tDEMO-DOES-NOT-APPLY\t$suite" >> /tmp/mut/verify.tsv; continue; fi
-  cmd=$(grep cargo $M/DEMO_CMD.txt | head -1 | sed 's/^.*\(cargo .*\)$/\1/' | sed "s#cd /tmp/wt-C[0-9]* *&& *##")
-  (eval "$cmd") > /tmp/mut/demo.out 2>&1; rc1=$?
+  if ! git apply $M/demo.diff 2>/dev/null; then echo -e "C$P\t$m\tDEMO-DOES-NOT-APPLY\t$suite" >> $MUT/verify.tsv; continue; fi
+  cmd=$(grep cargo $M/DEMO_CMD.txt | head -1 | sed 's/^.*\(cargo .*\)$/\1/')
+  (eval "$cmd") > $MUT/demo.out 2>&1; rc1=$?
   git apply -R $M/patch.diff
-  (eval "$cmd") > /tmp/mut/demo.out 2>&1; rc2=$?
-  echo -e "C$P\t$m\tsuite=$suite\tdemo_with_patch_rc=$rc1\tdemo_without_rc=$rc2\t$cmd" >> /tmp/mut/verify.tsv
+  (eval "$cmd") > $MUT/demo.out 2>&1; rc2=$?
+  echo -e "C$P\t$m\tsuite=$suite\tdemo_with_patch_rc=$rc1\tdemo_without_rc=$rc2\t$cmd" >> $MUT/verify.tsv
 done; done
 cd /repo && git worktree remove --force $WT
-echo DONE >> /tmp/mut/verify.tsv
+echo DONE >> $MUT/verify.tsv
